@@ -10,7 +10,9 @@
 //     grant_types_supported <=> the token endpoint does not answer unsupported_grant_type; S256 advertised => an S256
 //     flow succeeds and a wrong / absent verifier (or the challenge string itself) fails; request objects advertised =>
 //     a valid signed one is honoured; both advertised => PKCE parameters carried in the query, in the object or in both
-//     (object supersedes) are enforced all the same.
+//     (object supersedes) are enforced all the same. The PKCE promise is probed once per client authentication method of the
+//     token endpoint (none, client_secret_basic, client_secret_post, private_key_jwt - authmethods.go), each with a client
+//     registered for exactly that method: whichever way the client authenticates, only the right verifier redeems.
 //  2. construct cases: issuer strings from a URL grammar through every constructor; reference reading by RFC 3986.
 //  3. discover cases: client.Discover against documents served from an in-memory RoundTripper.
 package main
@@ -37,6 +39,10 @@ func mandatory(run *ev.Run) {
 		for _, pl := range []string{"query-only", "object-only", "both-equal", "both-different", "both-query-says-plain"} {
 			run.Mandatory("pkce+reqobj-honoured:" + rn + ":" + pl)
 		}
+		for _, m := range authMethodOrder {
+			run.Mandatory("pkce-honoured-for-auth-method:" + rn + ":" + m)
+		}
+		run.Mandatory("pkce+reqobj-honoured-for:"+rn+":client_secret_basic", "pkce+reqobj-honoured-for:"+rn+":private_key_jwt")
 		for e, k := range epKey {
 			run.Mandatory("served:" + rn + ":" + k)
 			if e != epAuth && e != epToken { // those two are exercised by every flow and grant probe
@@ -69,6 +75,7 @@ func main() {
 		"a route is served iff the answer to the canonical method is not the router's own '404 page not found'",
 		"an advertised URL is issuer-relative iff it starts with the document's issuer (trailing slash dropped) followed by '/'; other URLs are counted, not judged",
 		"the callback of the authorization flow lives at <advertised authorization endpoint>/callback (documented convention of both routers)",
+		"PKCE per client authentication method: one registered client per method (public native; Basic; client_secret_post; private_key_jwt with a registered RS256 key and no secret); a method the document does not advertise is probed too, its right-verifier outcome is grey, but a wrong / absent verifier redeeming a code is a violation under every method",
 		"grant probing uses a confidential Basic-auth client registered for every grant, known to the storage as service user, with a registered RS256 key; implicit is skipped",
 		"issuer strings: a query made only of '&' and an empty '?' / '#' are grey; schemes other than http/https, userinfo, unusual hosts / ports / paths are grey",
 		"client.Discover: 'differs' is string inequality between the asked issuer and the document's \"issuer\" member (absent / non-string counts as different); documents with duplicate or differently-cased member names are grey; the body 'null' is not generated (defect D17 belongs to C09)",
